@@ -112,12 +112,23 @@ func ruleC12a(c *Ctx) []*report.Result {
 
 // ruleC12e: a printer never outlives its call.
 func ruleC12e(c *Ctx) []*report.Result {
-	r := report.NewResult("C12.e", "a *pp (or a restorer holding one) is stored only into local variables: never into a package variable, a heap object or a channel; it leaves the call only as the interface argument of a user callback or into the pool", 4)
+	r := report.NewResult("C12.e", "a *pp (or a restorer holding one) is stored only into local variables: never into a package variable, a heap object or a channel; it leaves the call only as the interface argument of a user callback or into the pool", 1)
 	holdsPP := func(t types.Type) bool {
 		if p, ok := t.(*types.Pointer); ok && namedOf(p.Elem()) == tPP {
 			return true
 		}
 		return namedOf(t) == restorerName
+	}
+	// the matcher sees the types it is about (so that "no store" is a finding
+	// about the code and not about the matcher)
+	makers := 0
+	for _, fn := range c.P.ModuleFunctions() {
+		if res := fn.Signature.Results(); res.Len() == 1 && holdsPP(res.At(0).Type()) {
+			makers++
+		}
+	}
+	if makers > 0 {
+		r.Ok(fmt.Sprintf("%d functions return a printer or a restorer holding one", makers))
 	}
 	for _, fn := range c.P.ModuleFunctions() {
 		for _, b := range fn.Blocks {
